@@ -373,6 +373,8 @@ def run(M, rec, tier, seed, k, n):
             one_case(M, rec, rng, g, desc, pars, st, clashing)
             if it % 5 == 2:
                 extra_state_kind(M, rec, rng, st)
+            if it % 20 == 7:
+                large_network(M, rec, rng, st)
 
 
 def extra_state_kind(M, rec, rng, st):
@@ -400,6 +402,11 @@ def extra_state_kind(M, rec, rng, st):
     except Exception as e:
         rec.violation(f"{PROP}:a network with a user-defined link kind that adds a state cannot be stepped ({type(e).__name__})", {"exception": repr(e)[:300]})
         return
+    _layout_check(M, rec, rng, st, net, eng, pars, "a network with a user-defined link kind that adds a state", "extra_state_kind_layout_checks")
+
+
+def _layout_check(M, rec, rng, st, net, eng, pars, what, counter):
+    """Layout-only oracle built from the live objects (see extra_state_kind)."""
     els = list(net.elements)
     S = [(el, nm) for el in els if el.states for nm in el.states]
     U = [(el, nm) for el in els if el.actions for nm in el.actions]
@@ -422,11 +429,11 @@ def extra_state_kind(M, rec, rng, st):
 
     nS, nU = len(S), len(U)
     for compact in (0, 1, 2):
-        rec.count("extra_state_kind_layout_checks")
+        rec.count(counter)
         try:
             F = eng.to_function(net, compact=compact, **pars)
         except Exception as e:
-            rec.violation(f"{PROP}:compact={compact}: a network with a user-defined link kind that adds a state cannot be compiled ({type(e).__name__})",
+            rec.violation(f"{PROP}:compact={compact}: {what} cannot be compiled ({type(e).__name__})",
                           {"exception": repr(e)[:300]})
             continue
         if compact == 0:
@@ -443,13 +450,37 @@ def extra_state_kind(M, rec, rng, st):
             got = F(*args)
             got = [np.asarray(o, dtype=float).ravel() for o in (got if isinstance(got, (list, tuple)) else [got])]
         except Exception as e:
-            rec.violation(f"{PROP}:compact={compact}: the function of a network with an added-state kind cannot be called with its variables in the documented layout ({type(e).__name__})",
+            rec.violation(f"{PROP}:compact={compact}: the function of {what} cannot be called with its variables in the documented layout ({type(e).__name__})",
                           {"exception": repr(e)[:300], "argument_sizes": [int(np.size(a)) for a in args]})
             continue
         ok = len(got) == len(want) and all(g_.shape == w_.shape and np.allclose(g_, w_, rtol=1e-9, atol=1e-9) for g_, w_ in zip(got, want))
         if not ok:
-            rec.violation(f"{PROP}:compact={compact}: with a user-defined kind that adds a state, results are not the successors of the state arguments in the same positions",
+            rec.violation(f"{PROP}:compact={compact}: {what}: results are not the successors of the state arguments in the same positions",
                           {"sym_type": st, "states_in_order": [f"{nm}_{el.name}" for el, nm in S], "result_names": list(F.name_out())})
+
+
+def large_network(M, rec, rng, st):
+    """A corridor of more than 64 links (ordinary for METANET users): at every level position k of a per-name group is the
+    k-th element that owns a variable of that name, however many there are."""
+    NE, CE = drive.engines(M)
+    n_links = rng.choice((66, 70, 97, 130))
+    nodes = [M.Node(name=f"N{i}") for i in range(n_links + 1)]
+    links = [M.Link(rng.choice((1, 1, 1, 2)), rng.choice((2, 3)), 1.0, 180.0, 33.5, 102.0, 1.867, name=f"L{i}") for i in range(n_links)]
+    path = [nodes[0]]
+    for i in range(n_links):
+        path += [links[i], nodes[i + 1]]
+    net = M.Network().add_path(tuple(path), origin=M.MainstreamOrigin(name="O0"), destination=M.Destination(name="D0"))
+    for i in range(5, n_links, 7):  # on-ramps along the corridor (more than a handful of queues as well)
+        net.add_origin(M.MeteredOnRamp(1500.0, name=f"R{i}"), nodes[i])
+    eng = CE(st)
+    pars = dict(T=10 / 3600, tau=18 / 3600, eta=60.0, kappa=40.0)
+    try:
+        net.step(engine=eng, **pars)
+    except Exception as e:
+        rec.violation(f"{PROP}:a corridor of {n_links} links cannot be stepped ({type(e).__name__})", {"exception": repr(e)[:300]})
+        return
+    rec.count("large_networks")
+    _layout_check(M, rec, rng, st, net, eng, pars, "a corridor of more than 64 links", "large_network_layout_checks")
 
 
 def finish(M, rec, write=True):
